@@ -156,6 +156,7 @@ Section Steps.
   Context {R : Type}.
   Variable msplit : R -> option R -> option (list R).
   Variable sizeof : R -> Z.
+  Variable icount : R -> Z.
   Variable min_size : Z.
   Notation bst := (@bstate R).
 
@@ -332,6 +333,7 @@ Section Run.
   Context {R : Type}.
   Variable msplit : R -> option R -> option (list R).
   Variable sizeof : R -> Z.
+  Variable icount : R -> Z.
   Variable min_size : Z.
   Notation bst := (@bstate R).
 
@@ -341,34 +343,40 @@ Section Run.
     unfold wrap_done. destruct (1 <? N)%nat; intros H; inversion H; subst; auto.
   Qed.
 
-  Lemma inv_consume n (st : bst) r : Inv n st -> Inv (S n) (consume msplit sizeof min_size st n r).
+  Lemma inv_consume n (st : bst) r : Inv n st -> Inv (S n) (consume msplit sizeof icount min_size st n r).
   Proof.
     intros HI. unfold consume. destruct (b_cur st) as [[cur cds]|] eqn:Ecur.
     - destruct (msplit cur (Some r)) as [[|r0 rest]|]; try (apply inv_fire_new; exact HI).
       pose proof (inv_add_new n st) as Hadd.
-      destruct (wrap_done st n (S (length rest))) as [st1 d] eqn:Ew.
+      set (fhn := (Nat.eqb (length rest) 0 || negb (icount r0 =? icount cur))%bool).
+      set (N := if fhn then S (length rest) else length rest).
+      destruct (wrap_done st n N) as [st1 d] eqn:Ew.
       destruct (wrap_done_facts _ _ _ _ _ Ew) as [Hc1 [Hf1 Ht1]].
+      set (cds' := if fhn then cds ++ [d] else cds).
       set (ff := ((0 <? length rest)%nat || negb (sizeof r0 <? min_size))%bool).
-      set (st2 := with_cur st1 (if ff then None else Some (r0, cds ++ [d]))).
+      set (st2 := with_cur st1 (if ff then None else Some (r0, cds'))).
       destruct (park_last sizeof min_size st2 rest d) as [rest' st3] eqn:Ep.
       assert (Hpre : rest <> [] -> b_cur st2 = None).
       { intros Hne. unfold st2, ff. destruct rest; [congruence|]. reflexivity. }
       destruct (park_last_spec sizeof min_size st2 rest d rest' st3 Hpre Ep) as [Hr3 [Hf3 Ht3]].
-      set (st4 := if ff then start_flush st3 r0 (cds ++ [d]) else st3).
+      set (st4 := if ff then start_flush st3 r0 cds' else st3).
       destruct (start_flushes_spec rest' st4 [d]) as [Hr5 [Hf5 [_ Ht5]]].
-      assert (HN : (1 <= S (length rest))%nat) by lia.
-      specialize (Hadd (start_flushes st4 rest' [d]) (S (length rest)) HI HN). rewrite Ew in Hadd.
+      assert (HN : (1 <= N)%nat).
+      { unfold N, fhn. destruct (Nat.eqb (length rest) 0) eqn:E0; cbn [orb]; [lia|]. apply Nat.eqb_neq in E0. destruct (negb (icount r0 =? icount cur)); lia. }
+      assert (Hocc : forall x, occ x cds' + Z.of_nat (length rest) * occ x [d] = occ x cds + Z.of_nat N * occ x [d]).
+      { intros x. unfold cds', N. destruct fhn; [rewrite occ_app|]; lia. }
+      specialize (Hadd (start_flushes st4 rest' [d]) N HI HN). rewrite Ew in Hadd.
       apply Hadd.
       + rewrite Hr5. unfold st4. destruct ff; [rewrite (proj1 (start_flush_rf _ _ _))|]; rewrite Hr3; reflexivity.
       + rewrite Hf5. unfold st4. destruct ff; [rewrite (proj1 (proj2 (start_flush_rf _ _ _)))|]; rewrite Hf3; reflexivity.
-      + intros x. rewrite Ht5. specialize (Ht3 x). rewrite <- Ht1.
+      + intros x. rewrite Ht5. specialize (Ht3 x). rewrite <- Ht1. specialize (Hocc x).
         assert (Hst1 : tokens st1 x = occ x cds + fly_tokens x (b_flying st1)).
         { unfold tokens, cur_dones. rewrite Hc1, Ecur. reflexivity. }
         unfold st4. destruct ff eqn:Eff.
-        * rewrite tok_start_flush, occ_app. unfold st2 in Ht3. rewrite tok_with_cur_none in Ht3. rewrite Hst1. lia.
+        * rewrite tok_start_flush. unfold st2 in Ht3. rewrite tok_with_cur_none in Ht3. rewrite Hst1. lia.
         * unfold ff in Eff. apply orb_false_iff in Eff. destruct Eff as [El _]. apply Nat.ltb_ge in El.
           destruct rest; [|cbn in El; lia]. cbn [length] in *.
-          unfold st2 in Ht3. rewrite tok_with_cur_some, occ_app in Ht3.
+          unfold st2 in Ht3. rewrite tok_with_cur_some in Ht3.
           unfold park_last in Ep. cbn [unsnoc] in Ep. injection Ep as Hr' Hs3. subst rest'. cbn [length] in *. rewrite Hst1. lia.
     - destruct (msplit r None) as [[|r0 rest]|]; try (apply inv_fire_new; exact HI).
       pose proof (inv_add_new n st) as Hadd.
@@ -396,7 +404,7 @@ Section Run.
   Qed.
 
   Lemma inv_step sn e : Inv (snd sn) (fst sn) ->
-    Inv (snd (bstep msplit sizeof min_size sn e)) (fst (bstep msplit sizeof min_size sn e)).
+    Inv (snd (bstep msplit sizeof icount min_size sn e)) (fst (bstep msplit sizeof icount min_size sn e)).
   Proof.
     destruct sn as [st n]. cbn [fst snd]. intros HI. destruct e; cbn [bstep fst snd].
     - apply inv_consume; exact HI.
@@ -405,7 +413,7 @@ Section Run.
     - apply inv_flush_current; exact HI.
   Qed.
 
-  Lemma inv_run es : Inv (snd (brun msplit sizeof min_size es)) (fst (brun msplit sizeof min_size es)).
+  Lemma inv_run es : Inv (snd (brun msplit sizeof icount min_size es)) (fst (brun msplit sizeof icount min_size es)).
   Proof.
     unfold brun. rewrite <- fold_left_rev_right.
     induction (rev es) as [|e l IH]; cbn [fold_right]; [exact inv_init|]. apply inv_step. exact IH.
@@ -417,20 +425,20 @@ Section Run.
   Definition refers (st : bst) (i : nat) : Prop := 0 < tokens st (DReq i) \/ 0 < live i (b_refs st).
 
   Lemma done_at_most_once_l es i :
-    fcount i (b_fired (fst (brun msplit sizeof min_size es))) <= 1.
+    fcount i (b_fired (fst (brun msplit sizeof icount min_size es))) <= 1.
   Proof.
     destruct (inv_run es) as [_ [_ [H3 H4]]]. specialize (H4 i). specialize (H3 (DReq i)).
-    pose proof (live_nonneg i (b_refs (fst (brun msplit sizeof min_size es)))).
-    destruct (i <? snd (brun msplit sizeof min_size es))%nat; cbn [ind] in H4; lia.
+    pose proof (live_nonneg i (b_refs (fst (brun msplit sizeof icount min_size es)))).
+    destruct (i <? snd (brun msplit sizeof icount min_size es))%nat; cbn [ind] in H4; lia.
   Qed.
 
   Lemma done_only_after_batches_l es i :
-    0 < fcount i (b_fired (fst (brun msplit sizeof min_size es))) ->
-    ~ refers (fst (brun msplit sizeof min_size es)) i.
+    0 < fcount i (b_fired (fst (brun msplit sizeof icount min_size es))) ->
+    ~ refers (fst (brun msplit sizeof icount min_size es)) i.
   Proof.
     intros Hf. destruct (inv_run es) as [_ [_ [H3 H4]]]. specialize (H4 i). specialize (H3 (DReq i)).
-    pose proof (live_nonneg i (b_refs (fst (brun msplit sizeof min_size es)))).
-    unfold refers. destruct (i <? snd (brun msplit sizeof min_size es))%nat; cbn [ind] in H4; lia.
+    pose proof (live_nonneg i (b_refs (fst (brun msplit sizeof icount min_size es)))).
+    unfold refers. destruct (i <? snd (brun msplit sizeof icount min_size es))%nat; cbn [ind] in H4; lia.
   Qed.
 
   Lemma live_zero i : forall refs (tk : dref -> Z),
@@ -445,8 +453,8 @@ Section Run.
   Qed.
 
   Lemma done_exactly_once_l es i :
-    let st := fst (brun msplit sizeof min_size es) in
-    b_cur st = None -> b_flying st = [] -> (i < snd (brun msplit sizeof min_size es))%nat ->
+    let st := fst (brun msplit sizeof icount min_size es) in
+    b_cur st = None -> b_flying st = [] -> (i < snd (brun msplit sizeof icount min_size es))%nat ->
     fcount i (b_fired st) = 1.
   Proof.
     intros st Hc Hf Hi. destruct (inv_run es) as [H1 [_ [_ H4]]]. fold st in H1, H4. specialize (H4 i).
@@ -460,11 +468,11 @@ Section Run.
   Qed.
 
   (* the number of requests seen so far = number of consume events *)
-  Lemma run_count es : snd (brun msplit sizeof min_size es) =
+  Lemma run_count es : snd (brun msplit sizeof icount min_size es) =
     length (filter (fun e => match e with EConsume _ => true | _ => false end) es).
   Proof.
     unfold brun.
-    assert (H : forall l st n, snd (fold_left (bstep msplit sizeof min_size) l (st, n)) =
+    assert (H : forall l st n, snd (fold_left (bstep msplit sizeof icount min_size) l (st, n)) =
               (n + length (filter (fun e => match e with EConsume _ => true | _ => false end) l))%nat).
     { induction l as [|e l IH]; intros st n; cbn [fold_left filter]; [cbn; lia|].
       destruct e; cbn [bstep]; rewrite IH; cbn [length]; lia. }
